@@ -9,7 +9,13 @@ package main
 //   (const deterministic)  json.Marshal of the same value (maps rebuilt in fresh insertion orders)
 //                          gives identical text every time
 //   (const stable)         marshalling the set that was read back gives the same text again
-//   (json.names) (json.typeof x<name>) (json.nameof n)   the type-name tables (names, aliases, decimals)
+//   (json.names) (json.typeof x<name>) (json.nameof n)   the type-name tables (names, aliases, decimals,
+//                          letter-case variants and blank-padded forms of every name)
+//   (json.rt (C…)) again   a third of the sets: rendered / read along another legal route (jsonVia: set by value,
+//                          MarshalIndent, Encoder without HTML escaping, as the "caveats" member of a Macaroon,
+//                          decimal type numbers, the registered aliases, members reordered with an unknown
+//                          member, into a CaveatSet that already holds caveats) - same answer as the plain route
+//   (const same)           also: Nonce's own JSON form gives back the same nonce (famJSONNonces)
 //
 // Not generated: a nil flyio.Commands and a nil BindToParentToken — both render as "body":null, which
 // on the unrepaired tree reads back as a nil Caveat (open finding F4); flip jsonF4Repaired once it is
@@ -22,6 +28,7 @@ import (
 	"fmt"
 	"math/big"
 	"sort"
+	"strconv"
 	"strings"
 	"time"
 	"unicode/utf8"
@@ -42,8 +49,19 @@ var jRunes = []rune{0, 1, '\t', '\n', ' ', '"', '\\', '/', '<', '>', '&', '\'', 
 
 // utf8Str: a valid UTF-8 string (possibly with control characters, characters JSON escapes, multi-byte
 // and astral code points)
+// jWideStrs: valid UTF-8 the narrower cases never produced as WHOLE values: letter-case variants of one
+// word (also the code points that only case FOLDING equates: U+212A, U+017F, dotted/dotless i), leading /
+// trailing blanks, composed vs decomposed accents, a byte-order mark, separators, ids that are prefixes
+// of each other, NUL, and a long string
+var jWideStrs = []string{"a", "A", "ab", "Ab", "aB", "AB", " a", "a ", "\ta", "a\n", " ", "\u00e9", "e\u0301", "\u00c9", "E\u0301",
+	"k", "K", "\u212a", "s", "S", "\u017f", "\u00df", "SS", "ss", "i", "I", "\u0130", "\u0131", "\ufeffa", "\ufeff",
+	"a/", "a/b", "a/b/", "/", "a\x00", "a\x00b", "\x00", "example.com", "Example.COM", "example.com.",
+	"https://auth.example", "https://auth.example/", "https://Auth.Example", strings.Repeat("k", 300)}
+
 func (r *Rng) utf8Str() string {
-	switch r.Intn(6) {
+	switch r.Intn(8) {
+	case 6, 7:
+		return pick(r, jWideStrs)
 	case 0:
 		return ""
 	case 1, 2:
@@ -239,7 +257,13 @@ func (r *Rng) jCavKind(o *Out, k int, depth int) macaroon.Caveat {
 		u := auth.GitHubUserID(r.jU64())
 		return &u
 	case 24:
-		u := auth.GoogleUserID(*new(big.Int).SetBytes(r.Bytes(pick(r, []int{0, 1, 7, 8, 9, 21}))))
+		z := new(big.Int).SetBytes(r.Bytes(pick(r, []int{0, 1, 7, 8, 9, 21})))
+		if r.Chance(1, 5) {
+			// a negative big.Int is a legal Go value: JSON keeps the sign, the model (like the wire) sees the magnitude
+			z.Neg(z)
+			o.count("google.negative")
+		}
+		u := auth.GoogleUserID(*z)
 		return &u
 	case 25:
 		a := r.jMask()
@@ -509,6 +533,8 @@ func famJSON(r *Rng, o *Out, tier string) {
 
 	// --- the type-name tables ---
 	famJSONNames(r, o)
+	// --- nonces ---
+	famJSONNonces(r, o)
 
 	one := func(cavs []macaroon.Caveat) {
 		for _, c := range cavs {
@@ -608,6 +634,13 @@ func famJSON(r *Rng, o *Out, tier string) {
 		} else {
 			o.emit("(const stable)", "stable")
 		}
+		// the same set rendered and read along other legal routes gives the same set (the model line again,
+		// the implementation's answer taken along the other route)
+		if r.Chance(1, 3) {
+			route := pick(r, jsonRoutes)
+			o.count("route." + route)
+			o.emit("(json.rt "+sxCavs(cavs)+")", jsonVia(r, route, cs, text))
+		}
 		if r.Chance(1, 4) {
 			o.count("rt.second-hop")
 			res2 := guard(func() string {
@@ -654,6 +687,13 @@ func famJSON(r *Rng, o *Out, tier string) {
 			}
 			cavs = append(cavs, r.jCavKind(o, k, 3))
 		}
+		if nc > 0 && r.Chance(1, 8) {
+			// one caveat value (one pointer) at two places of the set
+			j := r.Intn(len(cavs))
+			at := r.Intn(len(cavs) + 1)
+			cavs = append(cavs[:at], append([]macaroon.Caveat{cavs[j]}, cavs[at:]...)...)
+			o.count("set.same-pointer-twice")
+		}
 		if nc > 8 {
 			o.count("set.len9+")
 		} else {
@@ -669,6 +709,13 @@ func famJSON(r *Rng, o *Out, tier string) {
 		`[{"type":"no such name","body":"x"}]`,
 		`[{"type":"281474976710656","body":"s"}]`,
 		`[{"type":"IfPresent","body":{"ifs":[{"type":"1000","body":[1,{"a":null}]}],"else":"r"}}]`,
+		`[ { "body" : { "k" : [ 1 , 2 ] , "K" : "\u00e9\ud83d\ude00" } , "type" : "33" } ]`,
+		`[{"type":"4294967296","body":18446744073709551616},{"type":"4294967296","body":18446744073709551616}]`,
+		`[{"type":"65536","body":null}]`,
+		`[{"type":"18446744073709551615","body":{"a":1,"a":2}}]`,
+		`[{"type":"Unregistered","body":"<&>"}]`,
+		`[{"type":"organization","body":{"id":1,"mask":"r"}}]`,
+		`[{"type":" 4","body":{"not_before":1,"not_after":2}}]`,
 	} {
 		res := guard(func() string {
 			var a, b macaroon.CaveatSet
@@ -690,6 +737,160 @@ func famJSON(r *Rng, o *Out, tier string) {
 		})
 		o.count("unreg.json-born")
 		o.emit("(const stable)", res)
+	}
+}
+
+type jsonCavT struct {
+	Type string          `json:"type"`
+	Body json.RawMessage `json:"body"`
+}
+
+var jsonRoutes = []string{"value", "indent", "nohtml", "macaroon", "numeric", "alias", "reordered", "reuse"}
+
+// jsonVia: marshal / unmarshal the set along another legal route; the observable has the format of
+// the plain round trip.  text is the compact text json.Marshal gave for the set.
+//
+//	value     json.Marshal of the CaveatSet VALUE (the plain route marshals a pointer)
+//	indent    json.MarshalIndent (white space inside and between the members)
+//	nohtml    an Encoder with SetEscapeHTML(false) (<, >, & stay literal)
+//	macaroon  as the "caveats" member of a Macaroon, read back into a Macaroon
+//	numeric   every top-level "type" rewritten to the DECIMAL type number ("4" for "ValidityWindow")
+//	alias     the registered aliases in place of the names (DeprecatedOrganization, DeprecatedApps, NoAdminFeatures)
+//	reordered members in the order body, type, with a member the reader does not know
+//	reuse     read into a CaveatSet value that already holds caveats
+func jsonVia(r *Rng, route string, cs *macaroon.CaveatSet, text []byte) string {
+	return guard(func() string {
+		var b []byte
+		var err error
+		rewrite := func(f func(i int, jc *jsonCavT)) ([]byte, error) {
+			var js []jsonCavT
+			if err := json.Unmarshal(text, &js); err != nil {
+				return nil, err
+			}
+			for i := range js {
+				f(i, &js[i])
+			}
+			return json.Marshal(js)
+		}
+		switch route {
+		case "value":
+			b, err = json.Marshal(*cs)
+		case "indent":
+			b, err = json.MarshalIndent(cs, pick(r, []string{"", " ", "\t"}), pick(r, []string{" ", "\t", "\n  "}))
+		case "nohtml":
+			var buf bytes.Buffer
+			e := json.NewEncoder(&buf)
+			e.SetEscapeHTML(false)
+			err = e.Encode(cs)
+			b = buf.Bytes()
+		case "macaroon":
+			b, err = json.Marshal(&macaroon.Macaroon{Location: "https://wire.example", UnsafeCaveats: *cs})
+			if err != nil {
+				return "err:marshal-other"
+			}
+			var m macaroon.Macaroon
+			if err := json.Unmarshal(b, &m); err != nil {
+				return "err:unmarshal"
+			}
+			if m.Location != "https://wire.example" {
+				return "err:location-lost"
+			}
+			return "ok " + sxCavs(m.UnsafeCaveats.Caveats)
+		case "numeric":
+			b, err = rewrite(func(i int, jc *jsonCavT) { jc.Type = strconv.FormatUint(uint64(cs.Caveats[i].CaveatType()), 10) })
+		case "alias":
+			b, err = rewrite(func(i int, jc *jsonCavT) {
+				switch jc.Type {
+				case "Organization":
+					jc.Type = "DeprecatedOrganization"
+				case "Apps":
+					jc.Type = "DeprecatedApps"
+				case "IsMember":
+					jc.Type = "NoAdminFeatures"
+				}
+			})
+		case "reordered":
+			var js []jsonCavT
+			if err := json.Unmarshal(text, &js); err != nil {
+				return "err:unmarshal"
+			}
+			var sb strings.Builder
+			sb.WriteString(" [")
+			for i, jc := range js {
+				if i > 0 {
+					sb.WriteString(" ,\n")
+				}
+				tn, _ := json.Marshal(jc.Type)
+				sb.WriteString(`{"x-note":{"type":"Organization","body":[1]}, "body" : ` + string(jc.Body) + ` , "type":` + string(tn) + `}`)
+			}
+			sb.WriteString("]\n")
+			b = []byte(sb.String())
+		case "reuse":
+			b = text
+		}
+		if err != nil {
+			return "err:marshal-other"
+		}
+		var back macaroon.CaveatSet
+		if route == "reuse" {
+			a := resset.Action(7)
+			back.Caveats = []macaroon.Caveat{&a, &flyio.IsMember{}, nil}
+		}
+		if err := json.Unmarshal(b, &back); err != nil {
+			return "err:unmarshal"
+		}
+		return "ok " + sxCavs(back.Caveats)
+	})
+}
+
+// famJSONNonces: Nonce has its own JSON form (the MessagePack encoding as a base64 string).  Judged
+// without the model: a nonce of either format comes back with the same key-id, random part, format
+// version and proof flag, and encodes to the same bytes.
+func famJSONNonces(r *Rng, o *Out) {
+	for i := 0; i < 120; i++ {
+		kid, rnd := r.Bytes(pick(r, []int{0, 1, 16, 255, 256, 300})), r.Bytes(pick(r, []int{0, 15, 16, 17}))
+		kids := []*mpNode{{Kind: mpBin, S: kid}, {Kind: mpBin, S: rnd}}
+		ver := "v0"
+		if r.Bool() {
+			kids = append(kids, &mpNode{Kind: mpBool, B: r.Bool()})
+			ver = "v1"
+		}
+		tokb := append([]byte{0x94}, mpEnc(&mpNode{Kind: mpArr, Kids: kids})...)
+		tokb = append(tokb, 0xa1, 'l', 0x90, 0xc4, 0x01, 0x00)
+		o.count("nonce." + ver)
+		o.emit("(const same)", guard(func() string {
+			m, err := macaroon.Decode(tokb)
+			if err != nil {
+				return "harness:token-refused"
+			}
+			n := m.Nonce
+			t1, err := json.Marshal(n)
+			if err != nil {
+				return "err:marshal"
+			}
+			t1p, err := json.Marshal(&n)
+			if err != nil || !bytes.Equal(t1, t1p) {
+				return "pointer-and-value-render-differently"
+			}
+			var back macaroon.Nonce
+			if r.Bool() {
+				back = m.Nonce // read into a used value of the same format
+				back.Proof = !back.Proof
+			}
+			if err := json.Unmarshal(t1, &back); err != nil {
+				return "err:unmarshal"
+			}
+			if sxNonce(back) != sxNonce(n) {
+				return "differs:" + sxNonce(n) + ":" + sxNonce(back)
+			}
+			if !bytes.Equal(back.MustEncode(), n.MustEncode()) {
+				return "differs:encoding"
+			}
+			if back.UUID() != n.UUID() {
+				return "differs:uuid"
+			}
+			return "same"
+		}))
 	}
 }
 
@@ -747,8 +948,12 @@ func famJSONNames(r *Rng, o *Out) {
 		"17", "18", "32", "4294967296", "281474976710655", "281474976710656", "18446744073709551614", "18446744073709551615",
 		"18446744073709551616", "99999999999999999999999", "Unregistered", "DeprecatedOrganization", "DeprecatedApps", "NoAdminFeatures",
 		"DeprecatedVolumes", "3p", "3P"}
+	probe = append(probe, "-0", "1e0", "1.0", "0x", "0b1", "0o7", " 4", "4 ", "4\n", "\t4", "\uff14", "\u0661\u0662", "4\x00", "1,000", "--1",
+		"0000000000000000000000004", "00018446744073709551615", "18446744073709551615 ", "deprecatedorganization", "NOADMINFEATURES", "Deprecatedapps")
 	for _, t := range typs {
 		probe = append(probe, names[t], fmt.Sprint(t))
+		// a name is looked up exactly: its letter-case variants and blank-padded forms are no names
+		probe = append(probe, strings.ToLower(names[t]), strings.ToUpper(names[t]), " "+names[t], names[t]+"\n", "0"+fmt.Sprint(t))
 	}
 	for _, p := range probe {
 		o.count("names.typeof")
